@@ -1,6 +1,7 @@
 //! Correspondence harness: reads one JSON case per line on stdin, runs the REAL quant-iron API on it
 //! under catch_unwind, and writes one JSON result per line on stdout (floats as IEEE bit patterns).
 mod gates;
+mod opseq;
 mod util;
 
 use serde_json::{json, Value};
@@ -10,6 +11,7 @@ fn dispatch(case: &Value) -> Value {
     match case["op"].as_str().unwrap_or("") {
         "gate" => gates::run_gate(case),
         "gate_sched" => gates::run_gate_sched(case),
+        "opseq" => opseq::run_opseq(case),
         other => json!({"r": "harness_error", "e": format!("unknown op {}", other)}),
     }
 }
